@@ -91,6 +91,7 @@ type Lemma struct {
 	Src  string
 	Mode string
 	Line int
+	Use  bool
 }
 
 type GhostVar struct{ Name, Type string }
@@ -220,14 +221,22 @@ func ParseContractFile(path, pkgPath string) (*PkgContracts, error) {
 			}
 			name := strings.TrimSpace(rest[:i])
 			mode := ""
-			if f := strings.Fields(name); len(f) == 2 {
-				name, mode = f[0], f[1]
+			use := false
+			if f := strings.Fields(name); len(f) >= 2 {
+				name = f[0]
+				for _, x := range f[1:] {
+					if x == "use" {
+						use = true // a lemma proved as an obligation AND made available to the function VCs of its package
+					} else {
+						mode = x
+					}
+				}
 			}
 			e, err := ParseExpr(rest[i+1:])
 			if err != nil {
 				return nil, fail(it, "%v", err)
 			}
-			l := Lemma{Name: name, E: e, Src: strings.TrimSpace(rest[i+1:]), Mode: mode, Line: it.line}
+			l := Lemma{Name: name, E: e, Src: strings.TrimSpace(rest[i+1:]), Mode: mode, Line: it.line, Use: use}
 			if w == "axiom" {
 				pc.Axioms = append(pc.Axioms, l)
 			} else {
